@@ -1,6 +1,6 @@
 SPECIFICATION Spec
 CONSTANTS
-  Budget = 2
+  Budget = 1
   SpaceSize = 2
   MaxMeas = 2
   Rewards <- PalZP
